@@ -235,6 +235,10 @@ def mirror_extend_low_side(array: jax.Array, axis: int, parity: int, on_plane: b
     """
     if not on_plane:
         return parity * jnp.flip(array, axis=axis)
+    if array.shape[axis] == 1:
+        # a single kept row lies on the plane and is its own mirror: there is no image to flip, the one
+        # missing sample repeats its neighbour (that row), so the axis is still doubled
+        return array
     mirrored = parity * jnp.flip(_slice_axis(array, axis, 1), axis=axis)
     return jnp.concatenate([_slice_axis(mirrored, axis, 0, 1), mirrored], axis=axis)
 
